@@ -173,7 +173,17 @@ def _env():
 COMPILE_ERR_RE = re.compile(r'^error(\[E\d+\])?:', re.M)
 
 
-def run_harnesses(names, tier='quick', jobs=12):
+MEM_LIMIT_BYTES = int(os.environ.get('VERIF_KANI_MEM_GB', '14')) * (1 << 30)
+
+
+def _limit_mem():
+    """address-space limit inherited by cargo / kani / cbmc: a harness that explodes dies with an allocation
+    failure (reported as out-of-memory -> exit 2) instead of taking the machine down"""
+    import resource
+    resource.setrlimit(resource.RLIMIT_AS, (MEM_LIMIT_BYTES, MEM_LIMIT_BYTES))
+
+
+def run_harnesses(names, tier='quick', jobs=None):
     """run the named harnesses; returns list of result dicts"""
     table = harness_table()
     for n in names:
@@ -190,15 +200,16 @@ def run_harnesses(names, tier='quick', jobs=12):
             out_json = os.path.join(ROOT, 'out-%s-%d.json' % (crate, os.getpid()))
             if os.path.exists(out_json):
                 os.remove(out_json)
+            njobs = jobs or (12 if crate == 'trippy-packet' else 4)
             cmd = ['cargo', 'kani', '-p', crate, '-Z', 'function-contracts', '-Z', 'stubbing', '-Z', 'unstable-options',
-                   '--exact' if False else '--output-format', 'terse', '-j', str(jobs), '--harness-timeout', '%ds' % tmax,
+                   '--output-format', 'terse', '-j', str(njobs), '--harness-timeout', '%ds' % tmax,
                    '--export-json', out_json, '--target-dir', TARGET]
             for h in hs:
                 cmd += ['--harness', h]
             t0 = time.time()
             try:
                 p = subprocess.run(cmd, cwd=WS, env=_env(), stdout=subprocess.PIPE, stderr=subprocess.STDOUT, text=True,
-                                   timeout=tmax * 2 + 1200)
+                                   timeout=tmax * (1 + len(hs) // njobs) + 1200, preexec_fn=_limit_mem)
                 out = p.stdout
             except subprocess.TimeoutExpired as e:
                 out = (e.stdout or b'').decode() if isinstance(e.stdout, bytes) else (e.stdout or '')
@@ -255,7 +266,8 @@ def run_harnesses(names, tier='quick', jobs=12):
                     row['failed'] = ['%s [%s:%s %s]' % (c.get('description'), os.path.basename((c.get('location') or {}).get('file') or '?'),
                                                         (c.get('location') or {}).get('line'), c.get('function')) for c in failed if c not in unw][:8]
                 else:
-                    row['status'] = 'TIMEOUT' if 'imeout' in json.dumps(r)[:2000] or r.get('duration_ms', 0) >= tmax * 1000 else ('ERROR:' + str(st))
+                    oom = ('out of memory' in out) or ('CBMC failed' in out and h in out)
+                    row['status'] = 'TIMEOUT' if 'imeout' in json.dumps(r)[:2000] or r.get('duration_ms', 0) >= tmax * 1000 else ('OUT-OF-MEMORY' if oom else 'ERROR:' + str(st))
                 res.append(row)
         # counterexamples for failed harnesses (sequential; concrete playback is incompatible with -j)
         for row in res:
